@@ -242,7 +242,7 @@ theorem childSubOK_simple {a P A D ts j cur} (h : AtInput a P A D ts j cur) (kp 
   | gsub81 _ _ _ _ => exact childSubOK_insertwise h kp gd acts _ (by rfl) hok
   | gpos11 _ _ => exact childSubOK_insertwise h kp gd acts _ (by rfl) hok
   | gpos12 _ _ => exact childSubOK_insertwise h kp gd acts _ (by rfl) hok
-  | gpos41 _ _ _ _ => exact childSubOK_insertwise h kp gd acts _ (by rfl) hok
+  | gpos41 _ _ _ _ _ => exact childSubOK_insertwise h kp gd acts _ (by rfl) hok
   | gpos61 _ _ _ _ => exact childSubOK_insertwise h kp gd acts _ (by rfl) hok
   | ctx1 _ _ => simp [Subtable.contextual] at hs
   | ctx2 _ _ _ => simp [Subtable.contextual] at hs
